@@ -16,7 +16,7 @@ from .pool import (Machine, Entry, Violation, ViewUnreadable, Probe,
                    gen_traj_data, se3_from, subsequence_ids, selection_ids,
                    BETA_CAP, POS_RTOL)
 from .refmodel import (LD, TrajModel, quat_to_rot, rot_to_quat, is_rotation,
-                       random_unit_quat)
+                       random_unit_quat, ref_umeyama)
 
 MUTATORS = ("transform", "scale", "reduce_to_ids", "downsample",
             "motion_filter", "time_range", "align", "align_origin", "project")
@@ -229,10 +229,35 @@ def execute_step(m: Machine, step, prop_of):
             ref = m.resolve(step["ref"])
             if ref is None or ref is e:
                 return None
+            # independent least-squares solution over the poses the call asks
+            # for (all of them, or the first n), from the models
+            nn = step["n"]
+            expect = None
+            if ref.model.n == e.model.n and e.model.n >= 3 and (
+                    nn == -1 or nn >= 3):
+                k = e.model.n if nn == -1 else min(nn, e.model.n)
+                with_s = step["scale"] or step["only_scale"]
+                Rr, tr_, sr, cond = ref_umeyama(
+                    e.model.p[:k].astype(float), ref.model.p[:k].astype(float),
+                    with_s)
+                if cond > 1e-6 and sr > 0:
+                    pm = e.model.p.astype(float)
+                    expect = (sr * pm if step["only_scale"] else
+                              (sr * pm) @ Rr.T + tr_)
             r_a, t_a, s = e.obj.align(ref.obj, correct_scale=step["scale"],
                                       correct_only_scale=step["only_scale"],
                                       n=step["n"])
             receivers.append(e)
+            if expect is not None:
+                got = np.array(copy.deepcopy(e.obj).positions_xyz)
+                scale_ = max(1.0, float(np.max(np.abs(expect))))
+                dev = float(np.max(np.abs(got - expect)))
+                if dev > 1e-6 * scale_:
+                    raise Violation(prop_of["receiver"],
+                                    "align-not-least-squares-over-requested-"
+                                    "poses", obj=e.uid, op=op, n=nn,
+                                    max_abs_dev=dev)
+                m.probe_hit("align_checked_against_independent_umeyama")
             if not is_rotation(r_a, 1e-9):
                 raise Violation(prop_of["receiver"], "align-returned-no-rotation",
                                 obj=e.uid, op=op)
@@ -464,14 +489,18 @@ def do_compute(m: Machine, step):
     elif what == "main_ape":
         if b is None or b.model.n == 0:
             return
-        res = evo.main_ape.ape(a.obj, b.obj, rel)
+        res = evo.main_ape.ape(a.obj, b.obj, rel,
+                               ref_name=step.get("ref_name", "reference"),
+                               est_name=step.get("est_name", "estimate"))
         m.results[step["uid"]] = [res, snapshot_result(res)]
         m.probe_hit("compute_main_ape")
     elif what == "main_rpe":
         if b is None or b.model.n == 0:
             return
         res = evo.main_rpe.rpe(a.obj, b.obj, rel, step.get("delta", 1),
-                               M.Unit.frames, support_loop=True)
+                               M.Unit.frames, support_loop=True,
+                               ref_name=step.get("ref_name", "reference"),
+                               est_name=step.get("est_name", "estimate"))
         m.results[step["uid"]] = [res, snapshot_result(res)]
         m.probe_hit("compute_main_rpe")
     elif what == "id_pairs":
@@ -622,8 +651,13 @@ def _metric_followups(m, met, step):
     met.get_all_statistics()
     for st in M.StatisticsType:
         met.get_statistic(st)
-    res = met.get_result("ref", "est")
+    res = met.get_result(step.get("ref_name", "ref"),
+                         step.get("est_name", "est"))
+    snap = snapshot_result(res)
     evo.pandas_bridge.result_to_df(res, label=step.get("label") or None)
+    if snapshot_result(res) != snap:
+        raise Violation("C16", "result-argument-changed", op="compute",
+                        fn="result_to_df")
     buf = io.BytesIO()
     evo.file_interface.save_res_file(buf, res)
     buf.seek(0)
@@ -1060,7 +1094,12 @@ def gen_step(m: Machine, rng, uid):
         st["contiguous"] = rng.random() < 0.5
         st["change_unit"] = rng.choice([None, None, "mm", "km", "deg", "rad",
                                         "m"])
-        st["label"] = rng.choice(["", "x"])
+        st["label"] = rng.choice(["", "", "x"])
+        # labels as they occur in practice: file names, topics, directories
+        st["est_name"] = rng.choice(["estimate", "est.tum", "run1/est.txt",
+                                     "bags/run_01/", "/odom", "C:\\d\\e\\",
+                                     "est 2", ""])
+        st["ref_name"] = rng.choice(["reference", "gt/ref.txt", "/gt"])
     elif what in ("lie", "helpers"):
         st["i"], st["j"] = rng.randrange(64), rng.randrange(64)
     elif what == "filter_pairs":
